@@ -102,7 +102,7 @@ def main(argv):
 
     mism = []
     if v.corr_ok and cases:
-        shard = max(40, (len(cases) + 15) // 16) if tier == 'quick' else max(200, (len(cases) + 31) // 32)
+        shard = max(40, (len(cases) + 15) // 16) if tier == 'quick' else 300
         mism, errs = coq_eval_cases(PROP, IMPORTS, 'c05case', cases, shard=shard)
         v.obligation('correspondence: model = implementation on %d compiled files (registers chosen per local in order, registers/immediates of every emitted instruction, diagnostics; vm_compute inside Coq)' % len(cases),
                      not mism and not errs, ('%d mismatches; ' % len(mism)) + '; '.join(errs)[:600] if (mism or errs) else '')
@@ -122,7 +122,7 @@ def main(argv):
     elif unrec and not v.violations:
         v.violation('translator no longer recognises the register tables: %s' % unrec[:3],
                     {'class': 'c05-tie1', 'broken': unrec}, no_failing_input=True)
-    elif any(not o[1] for o in v.obligations) and not v.violations and not v.known:
+    elif any(not o[1] for o in v.obligations) and not v.violations:
         bad = [o for o in v.obligations if not o[1]]
         v.violation('obligation failed: %s' % bad[0][0], {'class': 'c05-obligation', 'broken': [list(b) for b in bad]}, no_failing_input=True)
 
